@@ -101,6 +101,16 @@ CLAIMED = {
         "Trusted: solver correctness (validated by the diff); ties within 1e-6 of a rounding boundary skipped.",
         "DESIGN.md section 5 C05",
     ),
+    "C17": (
+        "Lean 4 theorems about a per-unit model of the history interpolation (sorted-prefix lemma, convex combination, row enumeration) + API-level correspondence of compute_versioned_margin_estimate",
+        "est_zero / est_before_first / est_convex / lambda_range / est_bounded / percs_complete / irregular_all_missing / error_kind / "
+        "regular_kept hold for every history. The real compute_versioned_margin_estimate is run on generated histories (repeats, zero-vote "
+        "versions, downward revisions, party swaps without new votes, re-scaled percents, int and float columns) and every row, error type "
+        "and nearest observation is compared with the model; the property (convex combination, bounds, completeness, correction, discarding) "
+        "is evaluated on every output.",
+        "Trusted: numpy searchsorted/diff/clip modelled as counting; float vs exact 1e-9 with a boundary rule.",
+        "DESIGN.md section 5 C17",
+    ),
 }
 
 PENDING_REASON = "check not built yet in this session (model and correspondence in progress); not claimed until it is"
